@@ -140,7 +140,8 @@ def run(tier):
                    dict(module="MC_EAN.tla", cfg="MC_EAN.cfg", workers=2),
                    dict(module="MC_1DSmall.tla", cfg="MC_1DSmall_quick.cfg", workers=4),
                    dict(module="MC_Aztec.tla", cfg="MC_Aztec.cfg", workers=4, heap="6g"),
-                   dict(module="MC_PDF417.tla", cfg="MC_PDF417.cfg", workers=4, heap="6g")])
+                   dict(module="MC_PDF417.tla", cfg="MC_PDF417.cfg", workers=4, heap="6g"),
+                   dict(module="MC_PDFDims.tla", cfg="MC_PDFDims.cfg", workers=4)])
     drive = vlib.build_harness(chk.work)
     jobs = c10_jobs(chk.rng, quick)
     evs, _ = onedim.judge_multi(chk, drive, jobs, wanted, nshards=14 if quick else 16, describe=describe)
